@@ -16,7 +16,7 @@ from copy import copy
 from collections.abc import Iterator
 from decimal import Decimal, DivisionByZero, InvalidOperation
 from fractions import Fraction
-from typing import cast, NoReturn
+from typing import Any, cast, NoReturn
 
 import elementpath.aliases as ta
 
@@ -127,6 +127,27 @@ def select__if_expression(self: XPathToken, context: ta.ContextType = None) \
         yield from self[2].select(context)
 
 
+def iter_free_variables(token: XPathToken, bound: frozenset[Any] = frozenset()) \
+        -> Iterator[XPathToken]:
+    """
+    The variable references of *token* that are not bound by a clause of a for, let,
+    some or every expression inside *token* itself.
+    """
+    if token.symbol == '$':
+        if token and token[0].value not in bound:
+            yield token
+    elif token.symbol in ('for', 'let', 'some', 'every') and len(token) >= 3 \
+            and token[0].symbol == '$':
+        inner = set(bound)
+        for k in range(0, len(token) - 1, 2):
+            yield from iter_free_variables(token[k + 1], frozenset(inner))
+            inner.add(token[k][0].value)  # in scope for the next clauses and the body
+        yield from iter_free_variables(token[-1], frozenset(inner))
+    else:
+        for child in token:
+            yield from iter_free_variables(child, bound)
+
+
 ###
 # Quantified expressions
 @method('some', bp=20, label='expression')
@@ -136,6 +157,7 @@ def nud__quantified_expressions(self: XPathToken) -> XPathToken:
     if self.parser.next_token.symbol != '$':
         return self.as_name()
 
+    clause_names: set[Any] = set()
     while True:
         self.parser.next_token.expected('$')
         variable = self.parser.expression(5)
@@ -143,9 +165,11 @@ def nud__quantified_expressions(self: XPathToken) -> XPathToken:
         self.parser.advance('in')
         expr = self.parser.expression(5)
         self.append(expr)
-        for tk in filter(lambda x: x.symbol == '$', expr.iter()):
-            if tk[0].value == variable[0].value:
-                raise tk.error('XPST0008', 'loop variable in its range expression')
+        if variable[0].value not in clause_names:  # else: the one of a previous clause
+            for tk in iter_free_variables(expr):
+                if tk[0].value == variable[0].value:
+                    raise tk.error('XPST0008', 'loop variable in its range expression')
+        clause_names.add(variable[0].value)
 
         if self.parser.next_token.symbol != ',':
             break
@@ -188,6 +212,7 @@ def nud__for_expression(self: XPathToken) -> XPathToken:
     if self.parser.next_token.symbol != '$':
         return self.as_name()
 
+    clause_names: set[Any] = set()
     while True:
         self.parser.next_token.expected('$')
         variable = self.parser.expression(5)
@@ -195,9 +220,11 @@ def nud__for_expression(self: XPathToken) -> XPathToken:
         self.parser.advance('in')
         expr = self.parser.expression(5)
         self.append(expr)
-        for tk in filter(lambda x: x.symbol == '$', expr.iter()):
-            if tk[0].value == variable[0].value:
-                raise tk.error('XPST0008', 'loop variable in its range expression')
+        if variable[0].value not in clause_names:  # else: the one of a previous clause
+            for tk in iter_free_variables(expr):
+                if tk[0].value == variable[0].value:
+                    raise tk.error('XPST0008', 'loop variable in its range expression')
+        clause_names.add(variable[0].value)
 
         if self.parser.next_token.symbol != ',':
             break
